@@ -2,6 +2,7 @@ import Qentem.Driver.Proto
 import Qentem.Model.HashTable
 import Qentem.Model.HashTableSpec
 import Qentem.Model.HashLedger
+import Qentem.Model.HashTree
 /-!
 Driver of the C13 models.  `Main.lean` is stateless per line, so one line carries a whole operation
 sequence and the answer carries one record per step, joined by `|`.
@@ -164,8 +165,45 @@ def handleLed (kind ops : String) : String :=
     | none => "bad-op"
     | some l => joinOr "," ((Qentem.HashLedger.lifetime cfg l).map showEv)
 
+/-! ### nested tables (`httree <op;op;…>`, the program syntax of harness/hashtree_harness.cpp) -/
+open Qentem.HashTree in
+def parsePath (s : String) : Option (List (List Nat)) :=
+  if s == "~" then some [] else (s.splitOn ".").mapM parseNats
+
+open Qentem.HashTree in
+def parseTreeOp (s : String) : Option TreeOp :=
+  match s.splitOn "/" with
+  | ["g", p, k] => do let p ← parsePath p; let k ← parseNats k; pure (.get p k)
+  | ["t", p, n] => do let p ← parsePath p; let n ← n.toNat?; pure (.setTag p n)
+  | ["r", p, k] => do let p ← parsePath p; let k ← parseNats k; pure (.remove p k)
+  | ["x", p] => do let p ← parsePath p; pure (.empty p)
+  | ["k", p] => do let p ← parsePath p; pure (.empty p)
+  | ["z", p] => do let p ← parsePath p; pure (.same p)
+  | ["y", p] => do let p ← parsePath p; pure (.same p)
+  | ["Y", p] => do let p ← parsePath p; pure (.same p)
+  | ["c", d, s] => do let d ← parsePath d; let s ← parsePath s; pure (.copy d s)
+  | ["m", d, s] => do let d ← parsePath d; let s ← parsePath s; pure (.move d s)
+  | ["a", d, s] => do let d ← parsePath d; let s ← parsePath s; pure (.assign d s)
+  | ["p", d, s] => do let d ← parsePath d; let s ← parsePath s; pure (.merge d s)
+  | ["q", d, s] => do let d ← parsePath d; let s ← parsePath s; pure (.mergeMove d s)
+  | _ => none
+
+open Qentem.HashTree in
+partial def dumpNode (n : Node) : String :=
+  toString n.tag ++ "[" ++ ";".intercalate (n.kids.map fun e => showNats e.1 ++ "=" ++ dumpNode e.2) ++ "]"
+
+open Qentem.HashTree in
+def handleTree (prog : String) : String :=
+  match ((prog.splitOn ";").filter (· != "")).mapM parseTreeOp with
+  | none => "bad-op"
+  | some ops =>
+    match runTree ops Node.fresh with
+    | none => "bad-path"
+    | some rs => joinOr "|" (rs.map dumpNode)
+
 def handle (op : String) (args : List String) : String :=
   match op, args with
+  | "httree", [prog] => handleTree prog
   | "htled", [kind, ops] => handleLed kind ops
   | "hthash", [u] =>
     match parseNats u with
